@@ -42,8 +42,10 @@ fn gen_offsets(rng: &mut Rng) -> Vec<(usize, usize)> {
                 (a + d, a)
             }
             6 => {
-                let a = 4096 + rng.range(0, 512) as usize;
-                let b = 16000 + rng.range(0, 8000) as usize;
+                // large: around the 8-bit, 16-bit-signed and 16-bit displacement limits and beyond
+                let a = *rng.pick(&[120usize, 128, 4096, 32760, 32768, 40000]) + rng.range(0, 16) as usize;
+                let b = *rng.pick(&[16000usize, 32768, 65528, 65536, 100000]) + rng.range(0, 600) as usize;
+                let (a, b) = if a.abs_diff(b) < 8 { (a, b + 64) } else { (a, b) };
                 if rng.chance(1, 2) {
                     (a, b)
                 } else {
@@ -140,10 +142,12 @@ pub fn generate(rng: &mut Rng, mode: Prop) -> Scenario {
             let len = if i == 0 {
                 rng.range(40, 64)
             } else {
-                match rng.below(5) {
-                    0 => 0,
-                    1 => rng.range(1, 7),
-                    2 => rng.range(8, 23),
+                match rng.below(20) {
+                    0..=3 => 0,
+                    4..=7 => rng.range(1, 7),
+                    8..=11 => rng.range(8, 23),
+                    12 => rng.range(250, 260),   // around one byte of length
+                    13 => rng.range(65530, 65600), // around two bytes of length
                     _ => rng.range(24, 64),
                 }
             } as usize;
